@@ -9,6 +9,7 @@ import (
 	"strconv"
 	"strings"
 	"sync"
+	"sync/atomic"
 	"time"
 
 	"github.com/emersion/go-sasl"
@@ -595,6 +596,8 @@ func exploreProtocol(run *h.Run, prefix string, pc ref.PConfig, alpha []ref.Cmd,
 	onEdge func(hist []int, r *histResult)) bfsStats {
 	var st bfsStats
 	seen := map[string]bool{}
+	alts := map[string][]int{} // per state: one history that was merged into it (merge audit)
+	deep := map[string][]int{} // per state: the longest history that was merged into it
 	var mu sync.Mutex
 	init := runLockstep(prefix, pc, alpha, nil)
 	if init.Finding != nil {
@@ -631,6 +634,7 @@ func exploreProtocol(run *h.Run, prefix string, pc ref.PConfig, alpha []ref.Cmd,
 			closed bool
 		}
 		cand := map[string]candT{}
+		levelAlt := map[string][]int{} // the largest same-level history that lost against the representative
 		h.ParallelFor(len(jobs), func(i int) {
 			if i%64 == 0 && run.Expired() {
 				return
@@ -656,15 +660,35 @@ func exploreProtocol(run *h.Run, prefix string, pc ref.PConfig, alpha []ref.Cmd,
 			if r.Closed {
 				st.Closed++
 			}
+			if seen[r.Key] && !r.Closed && mergeAudit[prefix] {
+				// an arrival at a state of an earlier level: keep the largest history of the first level that brings one
+				if old, ok := alts[r.Key]; !ok || (len(old) == len(hist) && lessHist(old, hist)) {
+					alts[r.Key] = hist
+				}
+				// ... and the largest one of the LAST level that brings one (the longest way into the state)
+				if old, ok := deep[r.Key]; !ok || len(hist) > len(old) || (len(old) == len(hist) && lessHist(old, hist)) {
+					deep[r.Key] = hist
+				}
+			}
 			if !seen[r.Key] {
 				// the representative history of a new state is the lexicographically smallest one of this level,
 				// not the one whose worker happened to finish first: runs are reproducible
 				if old, ok := cand[r.Key]; !ok || lessHist(hist, old.hist) {
+					if ok && mergeAudit[prefix] && !r.Closed {
+						levelAlt[r.Key] = maxHist(levelAlt[r.Key], old.hist)
+					}
 					cand[r.Key] = candT{hist, r.Closed}
+				} else if mergeAudit[prefix] && !r.Closed {
+					levelAlt[r.Key] = maxHist(levelAlt[r.Key], hist)
 				}
 			}
 			mu.Unlock()
 		})
+		for k, a := range levelAlt {
+			if _, ok := alts[k]; !ok {
+				alts[k] = a
+			}
+		}
 		for k, c := range cand {
 			seen[k] = true
 			if !c.closed {
@@ -695,7 +719,73 @@ func exploreProtocol(run *h.Run, prefix string, pc ref.PConfig, alpha []ref.Cmd,
 	if len(frontier) > 0 {
 		run.NotExhaustive(fmt.Sprintf("BFS stopped at depth %d with %d unexpanded states", st.MaxDepth, len(frontier)))
 	}
+	// ---- merge audit ----
+	// Only the representative history of a state is ever extended. The soundness of that rests on the state key; a
+	// difference the key cannot see (a field it does not dump - in particular one that a change ADDS) is merged away.
+	// So for every state ONE history that was merged into it (if there is one; chosen deterministically) is extended
+	// by fixed probe sequences and judged against the model like any other history: states that the key calls equal
+	// must have the futures the model predicts from both sides.
+	if mergeAudit[prefix] && !run.Expired() {
+		idx := map[string]int{}
+		for i, a := range alpha {
+			idx[a.Name] = i
+		}
+		var probes [][]int
+		for _, names := range [][]string{
+			{"RCPT b", "BDAT accept-c2 LAST", "MAIL ok", "RCPT a", "DATA accept-d1", "NOOP"},
+			{"MAIL size at the limit", "MAIL ok", "RCPT a", "BDAT accept-c1", "RSET", "AUTH ok", "MAIL ok", "RCPT b", "DATA reject-d2", "NOOP"},
+		} {
+			var p []int
+			for _, n := range names {
+				if i, ok := idx[n]; ok {
+					p = append(p, i)
+				}
+			}
+			probes = append(probes, p)
+		}
+		var keys []string
+		for k := range alts {
+			keys = append(keys, k)
+		}
+		for k, d := range deep {
+			// the longest way into the state, unless it is the same history
+			if a, ok := alts[k]; !ok || len(a) != len(d) || lessHist(a, d) {
+				alts[k+" (deep)"] = d
+				keys = append(keys, k+" (deep)")
+			}
+		}
+		sort.Strings(keys)
+		var audited atomic.Int64
+		h.ParallelFor(len(keys), func(i int) {
+			if run.Expired() {
+				return
+			}
+			for _, p := range probes {
+				hist := append(append([]int(nil), alts[keys[i]]...), p...)
+				r := runLockstep(prefix, pc, alpha, hist)
+				audited.Add(1)
+				run.Trace(1)
+				if r.Finding != nil {
+					c := bfsCase{PC: pc, Hist: hist, Names: histNames(alpha, hist), Prefix: prefix, Tier: run.Tier}
+					r.Finding.What = "(merge audit: a history that the state key had merged into an already known state, extended by a probe sequence) " + r.Finding.What
+					run.Violate("bfs", c, r.Finding, func() *h.Finding { return replayBFS(c) })
+					return
+				}
+			}
+		})
+		run.Counter("merge_audit_histories", audited.Load())
+	}
 	return st
+}
+
+// mergeAudit: which searches audit their merges (by finding prefix).
+var mergeAudit = map[string]bool{"c03": true}
+
+func maxHist(a, b []int) []int {
+	if a == nil || lessHist(a, b) {
+		return b
+	}
+	return a
 }
 
 func lessHist(x, y []int) bool {
